@@ -228,22 +228,21 @@ def blockItems (path : Path) (i : Nat) : Comps → ExecSt → Res (List V) × Ex
       match blockItems path (i + 1) cs s1 with
       | (.exc e, s2) => (.exc e, s2)
       | (.ok vs, s2) => (.ok (v :: vs), s2)
-/-- `BlockingExecutor.execute_fields` (= `execute_fields_serially`) with `resolve_field` inlined -/
+/-- `BlockingExecutor.execute_fields` (= `execute_fields_serially`) -/
 def blockFields (path : Path) : Flds → ExecSt → Res (List (String × V)) × ExecSt
   | .nil, s => (.ok [], s)
   | .cons key _ out rest, s =>
-    let p := path ++ [.key key]
-    let s := (s.emit (.call p)).emit (.done p)
-    let r : Res V × ExecSt := match out with
-      | .rerr => (.ok .null, s.addError p .resolver)
-      | .exc => (.exc .boom, s)
-      | .ok c => blockComp p c s
-    match r with
+    match blockField (path ++ [.key key]) out s with
     | (.exc e, s1) => (.exc e, s1)
     | (.ok v, s1) =>
       match blockFields path rest s1 with
       | (.exc e, s2) => (.exc e, s2)
       | (.ok kvs, s2) => (.ok ((key, v) :: kvs), s2)
+/-- `BlockingExecutor.resolve_field` (`p` already includes the response key) -/
+def blockField (p : Path) : ROut → ExecSt → Res V × ExecSt
+  | .rerr, s => (.ok .null, ((s.emit (.call p)).emit (.done p)).addError p .resolver)
+  | .exc, s => (.exc .boom, (s.emit (.call p)).emit (.done p))
+  | .ok c, s => blockComp p c ((s.emit (.call p)).emit (.done p))
 end
 
 def runBlocking (op : Op) : Result :=
